@@ -107,7 +107,7 @@ CHECKS.update({
    note=SEQ_NOTE),
  "C20": dict(engine="cfg", cat="exploration", ref="§4 C20, §2.6",
    technique="exhaustive configuration-grid enumeration: one real memcrsd process (built from /repo, hooks off) per CLI configuration, identical programs, transcript comparison",
-   text="Grid runtime-type x threads {1,2,8} x eviction x port x max-item-size x connection-limit (quick: covering subset of 8, thorough: all 96): byte-identical transcripts of the C01/C07 spanning-tree programs across configurations and agreement with the in-process run, item-size and connection limits enforced as configured (8 x limit simultaneous connections), a 1500-item population read back and flushed, one real-time TTL probe per configuration (ttl 4: hit at 0 s and 2.3 s, miss at 5.6 s). Second part: in-process differential BFS, eviction policy none vs random with an unreachable limit, every history of the C01 alphabet (incl. rejected CAS stores) to depth 5-6: byte-identical responses and equal stores. Connections ending in quit, quitq and a plain close precede the connection-limit probe. The in-process differential runs over the first alphabets of C01, C02, C06, C07 and C08. Per configuration six rounds of <connection ending with unconsumed bytes: behind quit, behind quitq, a cut-short set> + <fresh connection: get, noop> (nothing of one connection reaches the next, whichever runtime thread sets it up). The item-limit probe also runs pipelined: set, set of limit+1 bytes, set, get, noop in one write - the requests behind the refused one are answered under every configured limit.",
+   text="Grid runtime-type x threads {1,2,8} x eviction x port x max-item-size x connection-limit (quick: covering subset of 10, thorough: all 144; max-item-size 1KiB / 1MiB / 2MiB): byte-identical transcripts of the C01/C07 spanning-tree programs across configurations and agreement with the in-process run, item-size and connection limits enforced as configured (8 x limit simultaneous connections), a 1500-item population read back and flushed, one real-time TTL probe per configuration (ttl 4: hit at 0 s and 2.3 s, miss at 5.6 s). Second part: in-process differential BFS, eviction policy none vs random with an unreachable limit, every history of the C01 alphabet (incl. rejected CAS stores) to depth 5-6: byte-identical responses and equal stores. Connections ending in quit, quitq and a plain close precede the connection-limit probe. The in-process differential runs over the first alphabets of C01, C02, C06, C07 and C08. Per configuration six rounds of <connection ending with unconsumed bytes: behind quit, behind quitq, a cut-short set> + <fresh connection: get, noop> (nothing of one connection reaches the next, whichever runtime thread sets it up). The item-limit probe also runs pipelined: set, set of limit+1 bytes, set, get, noop in one write - the requests behind the refused one are answered under every configured limit.",
    note="Trusted: timing enters only as patience (5 s for positive, 300 ms for negative expectations); ./run builds the real memcrsd binary from /repo's working tree (verification feature off) into /verif/mc/target/memcrsd and every configuration is that binary with its CLI arguments; `mc serve` (the statements of memcrsd's main) is only the fallback when MEMCRSD_BIN is unset, and the evidence records which one ran."),
 })
 
